@@ -664,7 +664,9 @@ def run(cx, tier='quick'):
     rep.extra['discharged_by_rule'] = by_rule
     rep.extra['census'] = {k: len([s for s in sites if s.kind == k]) for k in sorted(set(s.kind for s in sites))}
     check_termination(cx, cg, fns, rep)
-    check_mir(cx, sites, rep)
+    from .. import mir as _mir
+    for cfg_ in _mir.configs(tier):
+        check_mir(cx, sites, rep, cfg_)
     rep.floor('PANIC', 150, '(≈230 sites today)')
     rep.floor('TERM', 100)
     rep.assumptions += ['syn/quote/proc-macro2 do not panic on a valid derive input; ToTokens::to_string() output re-lexes and re-parses',
@@ -738,18 +740,20 @@ def const_eval(e, w):
     return None
 
 
-def check_mir(cx, sites, rep):
+def check_mir(cx, sites, rep, features=None):
     """MIR-PANIC / MIR-LOOP: rustc's own, type-resolved view of the crate (MIR of every function and closure, all features) must not
     contain a panic-capable terminator or a loop that the syntax-level census did not see (and therefore did not discharge)"""
     import collections
     from .. import mir
-    rep.explanation.append(
+    if features is None:
+      rep.explanation.append(
         'MIR-PANIC: cross-check against rustc: tools/mirfacts (rustc_private driver under `cargo +nightly check --all-features`, nothing '
         'is run) lists every Call terminator whose type-resolved callee is Option/Result::unwrap/expect, Index::index, core::panicking::*, '
         'process::exit/abort or a panicking std method, and every Assert terminator (bounds, overflow, division); per function and kind '
         'the count must not exceed the number of census sites the PANIC rule discharged. MIR-LOOP: every MIR back edge lies in a function '
         'whose loops the TERM rule examined.')
-    rows = mir.facts(cx.repo)
+    rows = mir.facts(cx.repo, features)
+    tag = '' if features is None else '|features=' + (','.join(features) or 'none')
     idx = mir.FnIndex(cx)
     M = collections.defaultdict(list)
     for r in rows:
@@ -781,7 +785,7 @@ def check_mir(cx, sites, rep):
             if fid in unsafe_fns or any(not r['exp'] for _, r in lst):
                 rep.bad('MIR-PANIC', f.qname, 'ptrcheck', 'pointer-validity checks in a function with user-written raw-pointer code', f.file, lst[0][1]['line'])
             else:
-                rep.ok('MIR-PANIC', '%s|ptrcheck in std macro expansion, no unsafe code' % f.qname)
+                rep.ok('MIR-PANIC', '%s|ptrcheck in std macro expansion, no unsafe code%s' % (f.qname, tag))
             continue
         have = A[(fid, k)] + (A[(fid, 'insert')] if k == 'method' else 0)
         if len(lst) > have:
@@ -789,8 +793,9 @@ def check_mir(cx, sites, rep):
                     'rustc resolves %d panic-capable `%s` site(s) in this function (lines %s: %s) but the syntax census saw %d: a site is hidden from the discharge rules (operator/trait dispatch, macro, alias)'
                     % (len(lst), k, sorted(set(r['line'] for _, r in lst)), sorted(set(r.get('callee', r.get('what')) for _, r in lst))[:4], have), f.file, lst[0][1]['line'])
         else:
-            rep.ok('MIR-PANIC', '%s|%s x%d <= census %d' % (f.qname, k, len(lst), have))
-    rep.floor('MIR-PANIC', 40, '(functions x kinds with panic-capable MIR today)')
+            rep.ok('MIR-PANIC', '%s|%s x%d <= census %d%s' % (f.qname, k, len(lst), have, tag))
+    if features is None:
+        rep.floor('MIR-PANIC', 40, '(functions x kinds with panic-capable MIR today)')
     # loops
     loops_ast = collections.Counter()
     for s_ in sites:
@@ -815,9 +820,10 @@ def check_mir(cx, sites, rep):
         if len(own) > loops_ast[fid]:
             rep.bad('MIR-LOOP', f.qname, 'loops>%d' % loops_ast[fid], 'rustc finds %d loops written in this function (lines %s), the syntax census %d' % (len(own), sorted(set(r['line'] for r in own)), loops_ast[fid]), f.file, f.line)
         else:
-            rep.ok('MIR-LOOP', '%s|%d back edges <= %d loops' % (f.qname, len(own), loops_ast[fid]))
-    rep.floor('MIR-LOOP', 40)
-    rep.extra['mir'] = {'facts': len(rows), 'calls': len([r for r in rows if r['k'] == 'call']), 'asserts': len([r for r in rows if r['k'] == 'assert']),
+            rep.ok('MIR-LOOP', '%s|%d back edges <= %d loops%s' % (f.qname, len(own), loops_ast[fid], tag))
+    if features is None:
+        rep.floor('MIR-LOOP', 40)
+    rep.extra.setdefault('mir', {})[','.join(features) if features else ('all' if features is None else 'none')] = {'facts': len(rows), 'calls': len([r for r in rows if r['k'] == 'call']), 'asserts': len([r for r in rows if r['k'] == 'assert']),
                         'backedges': len([r for r in rows if r['k'] == 'backedge'])}
 
 
